@@ -691,9 +691,13 @@ Definition expire_one (tip : N) (w : wallet) (t : trec) : wallet :=
   | Some e => if e <=? tip then fst (cancel w (Some (t_id t)) None) else w
   | None => w
   end.
+(** what the expiry step looks at: the outstanding entries, except a payment that was confirmed
+    and then reorganised away (TxReverted) — it is not pending any more and stays reported as
+    reverted until mined again (the [fix:] for C18; before it the step cancelled it) *)
+Definition expirable (t : trec) : bool := outstanding t && negb (ttype_eqb (t_type t) TReverted).
 Definition expire (w : wallet) (tip : N) : wallet :=
   fold_left (expire_one tip)
-            (filter (fun t => (t_parent t =? w_active w) && outstanding t) (w_log w)) w.
+            (filter (fun t => (t_parent t =? w_active w) && expirable t) (w_log w)) w.
 
 (* ------------------------------------------------------------------ operations *)
 Inductive op :=
